@@ -62,7 +62,7 @@ func (x *g) avoidKnown(k string) string {
 var longLens = []int{131072, 65536, 65535, 65537, 196608, 131071, 256, 255, 257, 131073, 1 << 18}
 
 func (x *g) str() string {
-	if x.long < 2 && x.pct("longstr", 1) {
+	if x.long < 2 && x.pct("longstr", 1) && x.pct("longstr2", 12) {
 		// lengths around the powers of two a length field or a block size
 		// would have (seeded change C17g: values processed in 64 KiB blocks);
 		// two such strings differ in their last byte only
